@@ -131,6 +131,19 @@ def observe(ctx, st, m, case, step, canon, feats=()):
                 problems.append(('getPropertyValue/Priority ' + n, [st.getPropertyValue(n), st.getPropertyPriority(n), st[n]], [ev, ep]))
             if (n in st) != (x is not None):
                 problems.append(('in ' + n, n in st, x is not None))
+        # with keepAllProperties off the serialisation lists exactly the effective entry of every name
+        import cssutils as _cssutils  # (the tree under test: core.import_repo() has put it first on the path)
+
+        ser = _cssutils.ser
+        ser.prefs.keepAllProperties = False
+        try:
+            eff_text = st.cssText
+        finally:
+            ser.prefs.keepAllProperties = True
+        eff = type(st)(cssText=eff_text)
+        got_eff = sorted((p.name, p.value, p.priority) for p in eff.getProperties(all=True))
+        if got_eff != sorted(exp_it):
+            problems.append(('cssText with keepAllProperties=False', got_eff, sorted(exp_it)))
         # the serialisation lists all entries in order
         fresh = type(st)(cssText=st.cssText)
         got_txt = [(p.literalname, p.value, p.priority) for p in fresh.getProperties(all=True)]
@@ -321,9 +334,11 @@ def run_variables(ctx, cssutils, rng, canon, ops_in=None):
             op = script[step]
         else:
             op = [rng.choice(['set', 'set', 'setitem', 'remove', 'delitem', 'text', 'get-missing']), rng.choice(VNAMES), rng.choice(VALUES)]
+            if op[0] in ('set', 'setitem') and rng.random() < 0.15:
+                op[2] = rng.choice([0, 0, 0.0, 2, 1.5, -1])  # numbers are taken as they are (0 is a value, not "no value")
         ops.append(op)
         k, name, val = op[:3]
-        cval = canon.get(val, val)
+        cval = canon.get(val, val) if isinstance(val, str) else {0: '0', 2: '2', 1.5: '1.5', -1: '-1'}[val]
         nn = norm(name)
         ctx.count('oracle.variables-step')
         try:
